@@ -24,8 +24,9 @@ THEOREMS = [
     "ProbLogProofs.C29.C29_parent_unchanged",
     "ProbLogProofs.C29.C29_redirect_consistent_chain",
     "ProbLogProofs.C29.C29_redirect_consistent",
+    "ProbLogProofs.C29.C29_groups_fresh",
 ]
-REFUTATIONS = ["ProbLogProofs.C29.C29_redirect_consistent_V0_refuted"]
+REFUTATIONS = ["ProbLogProofs.C29.C29_redirect_consistent_V0_refuted", "ProbLogProofs.C29.C29_groups_fresh_V0_refuted"]
 
 MANIFEST = {
     "level": "proof",
@@ -63,7 +64,7 @@ def builtin_table(it):
     return " ".join(out)
 
 
-def correspondence_case(hist, tag, variant, bad_tail):
+def correspondence_case(hist, tag, variant, bad_tail, gv0=False):
     """Protocol lines for the model and the expected outputs computed from the real implementation.
 
     Returns (lines, expected) where expected[i] is None (not compared), a string (exact) or ('prefix', str)."""
@@ -107,7 +108,7 @@ def correspondence_case(hist, tag, variant, bad_tail):
                 for l in U.stmt_ops(name(j), st, it):
                     emit(l, ("prefix", "ok %d " % len(db)))
         dbs.append(db)
-        emit("dump %s" % name(j), U.impl_dump(db, it))
+        emit("dump %s" % name(j), U.impl_dump(db, it, gv0))
     if bad_tail:
         # error stream: a clause whose head is a builtin -> AccessError (last operation of the history)
         j = len(hist) - 1
@@ -124,9 +125,10 @@ def correspondence_case(hist, tag, variant, bad_tail):
         if failed and j == len(hist) - 1:
             continue  # the implementation keeps the nodes appended before the exception; the model does not
         db = dbs[j]
-        emit("dump %s" % name(j), U.impl_dump(db, it))
+        emit("dump %s" % name(j), U.impl_dump(db, it, gv0))
         for i in range(len(db)):
-            emit("%s %s %d" % ("node" if variant == "repaired" else "node0", name(j), i), U.impl_node(db, i, it))
+            emit("%s %s %d" % ("node" if variant == "repaired" else "node0", name(j), i),
+                 U.impl_node(db, i, it, gv0))
         emit("node %s %d" % (name(j), len(db)), "err IndexError")
         for f, a in sigs:
             emit("%s %s %s" % ("defs" if variant == "repaired" else "defs0", name(j), it.sig(f, a)),
@@ -151,6 +153,25 @@ def detect_variant():
     if full != 3:
         return "unknown", (n, full)
     return ("repaired" if n == 3 else "v0" if n == 2 else "unknown"), (n, full)
+
+
+def detect_group_variant():
+    """Group id of an annotated disjunction compiled into an extension: `len(self)` (repaired) or `len(self.__nodes)`?"""
+    from problog.clausedb import ClauseDB
+    from problog.logic import Term, AnnotatedDisjunction, Constant
+    eng = U.engine()
+    root = ClauseDB(builtins=eng.get_builtins())
+    root += Term("p", Term("a"))
+    child = root.extend()
+    n0 = len(child)
+    child += AnnotatedDisjunction([Term("x", p=Constant(0.2)), Term("y", p=Constant(0.3))], Term("true"))
+    groups = sorted(set(child.get_node(i).group for i in range(n0, len(child))
+                        if type(child.get_node(i)).__name__ == "choice"))
+    if groups == [n0]:
+        return "repaired", groups
+    if groups == [n0 - len(root)]:
+        return "v0", groups
+    return "unknown", groups
 
 
 # --------------------------------------------------------------------------------------- search (spec vs implementation)
@@ -291,6 +312,13 @@ def run(ctx):
                    "variant %s %s: redirect consistency is refuted for it (C29_redirect_consistent_V0_refuted)" % (
                        variant, vinfo))
 
+    gvariant, ginfo = detect_group_variant()
+    ctx.notes.append("implementation's AD group id: %s %s" % (gvariant, ginfo))
+    ctx.obligation("implementation's annotated-disjunction group id is the modelled (repaired) one: len(self)",
+                   gvariant == "repaired", "variant %s %s: freshness is refuted for it (C29_groups_fresh_V0_refuted)" % (
+                       gvariant, ginfo))
+    gv0 = gvariant == "v0"
+
     def nontrivial(h):
         for j, d in enumerate(h):
             if d["parent"] < 0:
@@ -323,7 +351,7 @@ def run(ctx):
     if drv is not None:
         rng = ctx.sub_rng("correspondence")
         n = ctx.budget(150, 6000)
-        cases = [(U.WITNESS_GRANDCHILD, None)]
+        cases = [(U.WITNESS_GRANDCHILD, None), (U.WITNESS_AD_GROUP, None)]
         if hists is not None:
             cases = [(hists[0], None)]
         else:
@@ -339,7 +367,7 @@ def run(ctx):
         for c0 in range(0, len(cases), chunk):
             lines, exp, owner = [], [], []
             for ci, (h, bad) in enumerate(cases[c0:c0 + chunk]):
-                l, e = correspondence_case(h, "h%d" % ci, variant if variant != "unknown" else "repaired", bad)
+                l, e = correspondence_case(h, "h%d" % ci, variant if variant != "unknown" else "repaired", bad, gv0)
                 lines += l
                 exp += e
                 owner += [c0 + ci] * len(l)
@@ -379,7 +407,7 @@ def run(ctx):
     n = ctx.budget(40, 2500)
     cap = ctx.budget(45.0, 700.0)
     t0 = time.time()
-    todo = [U.WITNESS_GRANDCHILD] if hists is None else hists
+    todo = [U.WITNESS_GRANDCHILD, U.WITNESS_AD_GROUP] if hists is None else hists
     if hists is None:
         todo = todo + [U.gen_history(rng) for _ in range(n)]
     found = {}
